@@ -637,7 +637,9 @@ pub fn decode(b: &Bits, pos: usize, code: Code, e: End, zx: bool) -> Dec<u64> {
                 if byte & 0x80 == 0 {
                     break;
                 }
-                if groups.len() > 10 {
+                // ten continuation bytes cannot be the prefix of the codeword of a 64-bit value (at most
+                // ten bytes in all), whatever follows or fails to follow
+                if groups.len() >= 10 {
                     return Dec::Invalid;
                 }
             }
